@@ -105,4 +105,17 @@ class Untyped(NodeBase, RecurrentProtocol):
         return Recurrent(data=data)
 
 
+from ml_pipeline_engine.node.enums import NodeType as _NodeType  # noqa: E402
+
+
+class EnumTyped(RecurrentProcessor):
+    """a node whose node_type is the enum member itself (not its .value)"""
+    name = "f1"
+    verbose_name = "Enum typed"
+    node_type = _NodeType.generic
+
+    def process(self, **kwargs: Any) -> Any:
+        return 0
+
+
 CLASSES = [F0, F1, F2, F3, F4]
